@@ -36,6 +36,12 @@ CHECKS = {
                      "realloc placement", "DString starting capacity (H1)", "pool slab size (H2)"],
             "expect_probes": ["obfuscation_draws_before_op", "engine_reused", "parse_substring_nonzero_start", "pool_depth_gt_1", "has_metadata_on_parsed_engine", "pool_cycled"],
             "sim_time": "each operation sees its own simulated clock value in [1980, 2107]; span reported under seam_events.time_calls"},
+    "C11": {"engine": "meta", "variants": ["A", "B"], "quick": 16000, "thorough": 600000, "quick_s": 70, "thorough_s": 560,
+            "real": ["metadata API of all three families (src/mmd.c)", "tokenizer/parser/writer reached through it", "DString"],
+            "stub": ["DString starting capacity (H1)", "pool slab size (H2)"],
+            "expect_probes": ["update_last_key", "update_first_key", "update_multiline_value", "add_to_doc_without_metadata", "has_metadata_twice_same_engine",
+                              "update_after_update_same_engine", "block_ends_at_eof_no_newline", "dstring_realloc_moved"],
+            "sim_time": "not meaningful: no clock is read on these paths"},
 }
 
 DEFAULT_SEED = {"quick": 20261001, "thorough": 20261002}
